@@ -17,6 +17,7 @@ theorem getDependentProducts_total (db : Db) (hns : NoUnsetup db) (top : Prod) (
   obtain ⟨out1, st1, h1⟩ := listing_total db hns [] top
   unfold getDependentProducts
   simp only [tableMissing_false hns top, Bool.false_eq_true, if_false, h1]
+  unfold finishListing
   split
   · exact Or.inl ⟨_, rfl⟩
   · obtain ⟨out2, st2, h2⟩ := listing_total db hns (out1.map fun e => (e.prod.name, e.prod.ver)) top
